@@ -66,9 +66,10 @@ Partition(line) ==
   line # <<>> => /\ s # <<>> /\ s[1].from = 0 /\ s[Len(s)].to = Len(line)
                  /\ \A k \in 1..Len(s) : s[k].from <= s[k].to
                  /\ \A k \in 2..Len(s) : s[k].from = s[k - 1].to
-\* a green range is a command word, possibly with the quote characters around it
+\* a green range is a command word, possibly with quote characters or an escaping backslash around it (`\cd` after an escaped `|`:
+\* found by TLC at length 6)
 OnlyFirstWords(line) ==
   \A k \in 1..Len(Styles(line)) :
     LET r == Styles(line)[k] IN
-    r.green => SelectSeq(SubSeq(line, r.from + 1, r.to), LAMBDA c : c \notin {"'", "\""}) = <<"c", "d">>
+    r.green => SelectSeq(SubSeq(line, r.from + 1, r.to), LAMBDA c : c \notin {"'", "\"", "\\"}) = <<"c", "d">>
 =============================================================================
